@@ -868,6 +868,33 @@ package sarama
 //@   ensures[in_sequence] err == nil && verAtLeast(ps.parent.conf.Version, V0_11_0_0) && ps.parent.conf.Producer.Idempotent ==> msg.sequenceNumber >= ps.msgs[msg.Topic][msg.Partition].recordsToSend.RecordBatch.FirstSequence
 //@   ensures[unchanged_on_error] err != nil ==> ps.bufferCount == old(ps.bufferCount) && ps.bufferBytes == old(ps.bufferBytes)
 
+// buildRequest: the request version follows the configured Kafka version (zstd needs produce v7, which brokers
+// speak from 2.1.0, the version from which Config.Validate accepts zstd); acks and timeout are the configured ones;
+// every record batch handed to the request has a header that matches the records it carries (last offset delta =
+// count - 1, record i at offset delta i); legacy compressed sets get relative inner offsets from 0.10 on.
+//@ func (r *ProduceRequest) AddBatch(topic, partition, batch) trusted
+//@   modifies r.records, maps(r.records)
+//@ func (r *ProduceRequest) AddSet(topic, partition, set) trusted
+//@   modifies r.records, maps(r.records)
+//@ func (r *ProduceRequest) AddMessage(topic, partition, msg) trusted
+//@   modifies r.records, maps(r.records)
+//@ func (ps *produceSet) buildRequest() props C04 C05
+//@   returns req
+//@   requires ps.msgs != nil && ps.parent != nil && ps.parent.conf != nil
+//@   requires forall t string, p int32 :: haskey(ps.msgs, t) && haskey(ps.msgs[t], p) ==> ps.msgs[t] != nil && ps.msgs[t][p] != nil && ps.msgs[t][p].recordsToSend.RecordBatch != nil && ps.msgs[t][p].recordsToSend.MsgSet != nil && len(ps.msgs[t][p].recordsToSend.RecordBatch.Records) <= 2147483647
+//@   requires forall t string, p int32, i int :: haskey(ps.msgs, t) && haskey(ps.msgs[t], p) && 0 <= i && i < len(ps.msgs[t][p].recordsToSend.RecordBatch.Records) ==> ps.msgs[t][p].recordsToSend.RecordBatch.Records[i] != nil
+//@   requires forall t string, p int32, i int, j int :: haskey(ps.msgs, t) && haskey(ps.msgs[t], p) && 0 <= i && i < j && j < len(ps.msgs[t][p].recordsToSend.RecordBatch.Records) ==> ps.msgs[t][p].recordsToSend.RecordBatch.Records[i] != ps.msgs[t][p].recordsToSend.RecordBatch.Records[j]
+//@   requires forall t string, p int32, i int :: haskey(ps.msgs, t) && haskey(ps.msgs[t], p) && 0 <= i && i < len(ps.msgs[t][p].recordsToSend.MsgSet.Messages) ==> ps.msgs[t][p].recordsToSend.MsgSet.Messages[i] != nil
+//@   requires forall t string, p int32 :: haskey(ps.msgs, t) && haskey(ps.msgs[t], p) ==> len(ps.msgs[t][p].recordsToSend.MsgSet.Messages) > 0 && ps.msgs[t][p].recordsToSend.MsgSet.Messages[0].Msg != nil
+//@   ensures[acks_and_timeout] req != nil && req.RequiredAcks == ps.parent.conf.Producer.RequiredAcks && req.Timeout == wrap32(tdiv(ps.parent.conf.Producer.Timeout, 1000000))
+//@   ensures[version_follows_config] req.Version == ite(ps.parent.conf.Producer.Compression == CompressionZSTD && verAtLeast(ps.parent.conf.Version, V2_1_0_0), 7, ite(verAtLeast(ps.parent.conf.Version, V0_11_0_0), 3, ite(verAtLeast(ps.parent.conf.Version, V0_10_0_0), 2, 0)))
+//@   callsite ProduceRequest.AddBatch: requires[header_matches_records] len($batch.Records) > 0 ==> $batch.LastOffsetDelta == len($batch.Records) - 1 && forall i :: 0 <= i && i < len($batch.Records) ==> $batch.Records[i].OffsetDelta == i
+//@   callsite ProduceRequest.AddBatch: requires[batch_only_from_v3] req.Version >= 3
+//@   callsite ProduceRequest.AddSet: requires[legacy_only_below_v3] req.Version < 3 && ps.parent.conf.Producer.Compression == CompressionNone
+//@   callsite ProduceRequest.AddMessage: requires[wrapper_carries_codec] req.Version < 3 && $msg != nil && $msg.Codec == ps.parent.conf.Producer.Compression && $msg.Codec != CompressionNone && $msg.Key == nil && $msg.Version == ite(verAtLeast(ps.parent.conf.Version, V0_10_0_0), 1, 0)
+//@   loop 2: invariant rb == set.recordsToSend.RecordBatch && rb != nil && forall k :: 0 <= k && k < $i ==> rb.Records[k].OffsetDelta == k
+//@   loop 2: invariant rb.LastOffsetDelta == len(rb.Records) - 1 && req != nil && req.Version >= 3
+
 // ---------------------------------------------------------------------------------------------
 // offset_manager.go (C06). Every operation on a partitionOffsetManager is one critical section of
 // pom.lock; acq(e) is e at the acquisition, the post-state is the release. A contract proved for the
@@ -984,12 +1011,23 @@ package sarama
 //@ func (t *transactionManager) bumpEpoch() props C05
 //@   requires acq(t.producerEpoch) < 32767 ==> true
 //@   ensures[epoch] t.producerEpoch == wrap16(acq(t.producerEpoch) + 1)
+//@   ensures[all_sequences_reset] forall k string :: haskey(t.sequenceNumbers, k) ==> mapval(t.sequenceNumbers, k) == 0
+//@   ensures[same_partitions] forall k string :: haskey(t.sequenceNumbers, k) == acq(haskey(t.sequenceNumbers, k))
+//@   loop 0: invariant forall k string :: $visited[k] ==> haskey(t.sequenceNumbers, k) && mapval(t.sequenceNumbers, k) == 0
+//@   loop 0: invariant forall k string :: haskey(t.sequenceNumbers, k) == acq(haskey(t.sequenceNumbers, k))
 //@   modifies t.producerEpoch, map:t.sequenceNumbers
 
+// The counters are kept per topic-partition: tpKey(topic, partition) stands for the key string; fmt.Sprintf with
+// the format "%s-%d" computes it, and different (topic, partition >= 0) pairs give different keys (T-stdlib: the
+// decimal rendering of a non-negative integer contains no '-', so the last '-' of the key separates the two).
+//@ ghost func tpKey(string, int32) string
+//@ axiom[tpKey] forall a string, p int32, b string, q int32 :: p >= 0 && q >= 0 && tpKey(a, p) == tpKey(b, q) ==> a == b && p == q
 //@ func (t *transactionManager) getAndIncrementSequenceNumber(topic, partition) props C05
 //@   returns seq, epoch
 //@   callsite Sprintf: requires[key_format] $format == "%s-%d"
-//@   ensures[next_sequence] seq == acq(ite(haskey(t.sequenceNumbers, key), mapval(t.sequenceNumbers, key), 0)) && haskey(t.sequenceNumbers, key) && mapval(t.sequenceNumbers, key) == wrap32(seq + 1)
+//@   callsite Sprintf: effect $result == tpKey($arg1.(string), $arg2.(int32))
+//@   ensures[counter_of_this_partition] seq == acq(ite(haskey(t.sequenceNumbers, tpKey(topic, partition)), mapval(t.sequenceNumbers, tpKey(topic, partition)), 0)) && haskey(t.sequenceNumbers, tpKey(topic, partition)) && mapval(t.sequenceNumbers, tpKey(topic, partition)) == wrap32(seq + 1)
+//@   ensures[other_counters_untouched] forall k string :: k != tpKey(topic, partition) ==> haskey(t.sequenceNumbers, k) == acq(haskey(t.sequenceNumbers, k)) && mapval(t.sequenceNumbers, k) == acq(mapval(t.sequenceNumbers, k))
 //@   requires t.sequenceNumbers != nil
 //@   ensures[epoch] epoch == acq(t.producerEpoch) && t.producerEpoch == acq(t.producerEpoch)
 //@   modifies t.producerEpoch, map:t.sequenceNumbers
@@ -1083,6 +1121,7 @@ package sarama
 //@   callsite send.output: effect forall m *ProducerMessage :: (forall i :: 0 <= i && i < len(pSet.msgs) ==> pSet.msgs[i] != m) ==> m.disp == old(m.disp)
 //@   ensures[conserve] forall i :: 0 <= i && i < len(pSet.msgs) ==> pSet.msgs[i].disp == old(pSet.msgs[i].disp) + 1
 //@   ensures[same_records] pSet.recordsToSend.RecordBatch == old(pSet.recordsToSend.RecordBatch) && pSet.recordsToSend.MsgSet == old(pSet.recordsToSend.MsgSet) && len(pSet.msgs) == old(len(pSet.msgs))
+//@   ensures[same_batch_identity @C05] pSet.recordsToSend.RecordBatch != nil ==> pSet.recordsToSend.RecordBatch.ProducerID == old(pSet.recordsToSend.RecordBatch.ProducerID) && pSet.recordsToSend.RecordBatch.ProducerEpoch == old(pSet.recordsToSend.RecordBatch.ProducerEpoch) && pSet.recordsToSend.RecordBatch.FirstSequence == old(pSet.recordsToSend.RecordBatch.FirstSequence) && len(pSet.recordsToSend.RecordBatch.Records) == old(len(pSet.recordsToSend.RecordBatch.Records))
 //@   loop 0: invariant len(pSet.msgs) == old(len(pSet.msgs)) && arr(pSet.msgs) == old(arr(pSet.msgs)) && off(pSet.msgs) == old(off(pSet.msgs))
 //@   loop 0: invariant forall j :: 0 <= j && j < len(pSet.msgs) ==> pSet.msgs[j].disp == old(pSet.msgs[j].disp)
 //@   loop 0: invariant forall j :: 0 <= j && j < len(pSet.msgs) ==> pSet.msgs[j].retries >= 0
